@@ -243,11 +243,19 @@ class Evaluator:
         for r in reversed(returns):
             pc, v, in_loop = r
             pc = pc[base:]
+            leaf = v
             if in_loop or any(c[0] not in ("if", "arm", "notarm") for c in pc):
-                res = phi([res, v])
-                continue
+                # a return inside a loop: under the conditions that lead to the loop the value is either what it was or v
+                k = 0
+                while k < len(pc) and pc[k][0] in ("if", "arm", "notarm"):
+                    k += 1
+                pc = pc[:k]
+                leaf = phi([res, v])
+                if not pc:
+                    res = leaf
+                    continue
 
-            def wrap(i, res=res, v=v, pc=pc):
+            def wrap(i, res=res, v=leaf, pc=pc):
                 if i == len(pc):
                     return v
                 c = pc[i]
@@ -735,6 +743,89 @@ class Evaluator:
         scrut = self.ev(e["scrut"], st, depth)
         if self.conds is not None:
             self.conds.append(scrut)
+        if UNFOLD and depth < 40:
+            # modulo unfolding only (second analysis): a match on a conditional is the conditional of the matches
+            # (case of case), a match on a known constructor is its arm, `o.map(f)` is `match o {Some(z) => Some(f(z)), None => None}`
+            r = self._match_over(scrut, e, st, depth, 0)
+            if r is not None:
+                return r
+        return self._ev_arms(e, scrut, st, depth)
+
+    def _opt_map_as_match(self, sc, depth):
+        if sc.k == "call" and len(sc.a) == 3 and sc.a[2].k in ("closure", "fnitem") and sc.a[0] == "core::option::Option::<T>::map":
+            o, f = sc.a[1], sc.a[2]
+            some = {"k": "Variant", "adt": "core::option::Option", "variant": "Some", "nfields": 1, "fields": [], "ty": ""}
+            none = {"k": "Variant", "adt": "core::option::Option", "variant": "None", "nfields": 0, "fields": [], "ty": ""}
+            val = self.apply(f, [self.mkproj(o, "Option::Some.0")], depth + 1)
+            return Tm("match", (o, ((some, None, Tm("adt", ("core::option::Option", "Some", (("0", val),)))),
+                                    (none, None, Tm("adt", ("core::option::Option", "None", ()))))), sc.n)
+        return None
+
+    def _match_over(self, sc, e, st, depth, lvl):
+        """the match `e` evaluated on scrutinee term sc, pushed into sc's own branches; None = nothing to push"""
+        if lvl > 4:
+            return None
+        if sc.k == "try":
+            return None
+        m = self._opt_map_as_match(sc, depth)
+        if m is not None:
+            sc = m
+        if sc.k == "match":
+            arms = []
+            for p_, g_, b_ in sc.a[1]:
+                r = self._match_over(b_, e, st, depth, lvl + 1)
+                arms.append((p_, g_, r if r is not None else self._ev_arms(e, b_, st, depth + 1)))
+            return Tm("match", (sc.a[0], tuple(arms)), sc.n)
+        if sc.k == "if":
+            out = []
+            for b_ in (sc.a[1], sc.a[2]):
+                r = self._match_over(b_, e, st, depth, lvl + 1)
+                out.append(r if r is not None else self._ev_arms(e, b_, st, depth + 1))
+            return Tm("if", (sc.a[0], out[0], out[1]), sc.n)
+        if sc.k == "adt" and lvl > 0:
+            return self._ev_arms(e, sc, st, depth + 1)
+        return None
+
+    def _known_arm(self, e, scrut):
+        """index of the arm a known constructor takes (patterns: the variant with bindings / wildcards / tuples of those), else None"""
+        if scrut.k != "adt":
+            return None
+
+        def simple(p):
+            while p.get("k") in ("Deref", "DerefPattern"):
+                p = p["sub"]
+            if p.get("k") == "Wild" or (p.get("k") == "Binding" and not p.get("sub")):
+                return True
+            if p.get("k") == "Leaf" and "adt" not in p:
+                return all(simple(f["pat"]) for f in p.get("fields", []))
+            return False
+        for i, a in enumerate(e["arms"]):
+            p = a["pat"]
+            while p.get("k") in ("Deref", "DerefPattern"):
+                p = p["sub"]
+            if "guard" in a:
+                return None
+            if p.get("k") == "Variant":
+                if not all(simple(f["pat"]) for f in p.get("fields", [])):
+                    return None
+                if p.get("variant") == scrut.a[1]:
+                    return i
+                continue
+            if simple(p):
+                return i
+            return None
+        return None
+
+    def _ev_arms(self, e, scrut, st, depth):
+        if UNFOLD:
+            ki = self._known_arm(e, scrut)
+            if ki is not None:
+                a = e["arms"][ki]
+                s2 = st.fork()
+                self.bind(a["pat"], scrut, s2.env)
+                b = self.ev(a["body"], s2, depth)
+                st.join([s2])
+                return b
         arms = []
         forks = []
         # an arm `P1 | P2 => body` is evaluated as two arms with the same body: every alternative gets its own bindings
@@ -1151,6 +1242,9 @@ def _shape_of_pat(p):
         return ("s", p["value"])
     if p.get("k") == "Variant" and all((f["pat"].get("k") in ("Wild",) or (f["pat"].get("k") == "Binding" and not f["pat"].get("sub"))) for f in p.get("fields", [])):
         return ("v", p["variant"], [tables.ANY] * p.get("nfields", len(p.get("fields", []))))
+    if p.get("k") == "Slice" and not p.get("slice") and all(
+            q.get("k") == "Wild" or (q.get("k") == "Binding" and not q.get("sub")) for q in (p.get("prefix") or []) + (p.get("suffix") or [])):
+        return ("sl", len(p.get("prefix") or []) + len(p.get("suffix") or []))
     if p.get("k") == "Leaf" and "adt" not in p and p.get("fields"):
         subs = [None] * p.get("arity", len(p["fields"]))
         for f in p["fields"]:
